@@ -456,8 +456,98 @@ def gen_method_unit(sc, sidecar_path, repo):
             'twin_names': [m_['fn'] + '_twin' for m_ in meta]}
 
 
+def gen_callbacks_unit(sc, sidecar_path, repo):
+    """closures registered as callbacks by a wiring method (`self.F.CALL(move |params| { .. })` inside `fn NAME(&self)`): each closure
+    body is lifted like an operator handler (R1 on the captured lock cells, R13 connect idiom, R14 `.unsubscribe()` -> world log);
+    the captured names must be identity aliases of the struct's fields (`let X = Arc::clone(&self.X);` / `let X = self.X.clone();`),
+    checked as the unit's skeleton.  One closure may carry several contracts ([[callback]] entries with the same `call`)."""
+    import rxlex
+    op = sc['op']
+    src_path = os.path.join(repo, sc['file'])
+    if not os.path.exists(src_path):
+        raise UnitError('anchor', 'file %s missing' % sc['file'])
+    src = open(src_path).read()
+    toks = rxprep.strip_test_mods(rxprep.tree(src))
+    try:
+        body, _ = rxprep.find_fn(toks, sc['fn'], sc.get('impl'))
+    except (AnchorLost, LexError) as e:
+        raise UnitError('anchor', str(e))
+    cells = sc.get('cells', {})
+    captures = sc.get('captures', {})
+    sk_problems = []
+    found = {}
+    def visit(kids):
+        for st in rxprep.split_statements(kids):
+            if not st:
+                continue
+            if len(st) == 1 and st[0].is_group('{'):
+                visit(st[0].kids)
+                continue
+            txt = re.sub(r'\s+', ' ', src[st[0].start:st[-1].end]).strip().rstrip(';')
+            m = re.fullmatch(r'let (\w+) = (Arc::clone\( ?&self\.(\w+) ?\)|self\.(\w+)\.clone\(\))', txt)
+            if m:
+                if m.group(1) != (m.group(3) or m.group(4)):
+                    sk_problems.append('captured name `%s` is not an alias of the field of the same name: `%s`' % (m.group(1), txt))
+                elif m.group(1) not in cells and m.group(1) not in captures:
+                    sk_problems.append('captured field `%s` is not covered by the contract' % m.group(1))
+                continue
+            j = rxprep.match_seq(st, 0, ['self', '.', 'ident', '.', 'ident', '(…)'])
+            if j > 0 and j >= len(st) - 1 and st[4].text in [c['call'] for c in sc['callback']]:
+                cl = rxprep.parse_closure(st[5].kids, src)
+                if cl is None:
+                    sk_problems.append('argument of %s is not a closure' % st[4].text)
+                elif st[4].text in found:
+                    sk_problems.append('%s is registered more than once' % st[4].text)
+                else:
+                    found[st[4].text] = cl
+                continue
+            sk_problems.append('unrecognised statement in %s: `%s`' % (sc['fn'], txt[:120]))
+    visit(body.kids)
+    world = sc.get('world', 'World')
+    fns, twins, meta = [], [], []
+    for cb in sc['callback']:
+        cl = found.get(cb['call'])
+        if cl is None:
+            raise UnitError('anchor', 'no `self.<field>.%s(closure)` in fn %s' % (cb['call'], sc['fn']))
+        sk = rxprep.Skeleton()
+        for c in cells:
+            sk.cells[c] = ('', 0)
+        try:
+            ex = rxprep.rewrite_body(cl, sk, src, op, captures, {}, world=True)
+        except NotExtractable as e:
+            raise UnitError('not_extractable', '%s.%s: %s' % (op, cb['call'], e))
+        pnames = [p_[0] for p_ in ex.params]
+        def subst(t):
+            for k in range(len(pnames), 0, -1):
+                t = t.replace('$%d' % k, pnames[k - 1])
+            return t
+        ptypes = cb.get('param_types', [])
+        params = ['%s: &mut %s' % (c, t) for c, t in cells.items()] + ['%s: %s' % (c, t) for c, t in captures.items()] + \
+                 ['world: &mut %s' % world] + ['%s: %s' % (n, ptypes[k]) for k, n in enumerate(pnames)]
+        req = [subst(x) for x in cb.get('requires', [])] or ['true']
+        ens = [subst(x) for x in cb.get('ensures', [])]
+        fn_name = '%s_%s' % (op, cb.get('name', cb['call']))
+        header = '// extracted callback `%s` of %s::%s: %s chars %d..%d (line %d) sha256=%s\n// replacements: %s\n' % (
+            cb['call'], sc.get('impl', ''), sc['fn'], sc['file'], ex.span[0], ex.span[1], rxprep.line_of(src, ex.span[0]), ex.sha256, json.dumps(ex.replacements))
+        f = header + 'fn %s(%s)\n    requires\n%s    ensures\n%s{\n    let _unit: () = /*BEGIN-EXTRACTED*/ %s /*END-EXTRACTED*/;\n%s}\n' % (
+            fn_name, ', '.join(params), _fmt_list(req), _fmt_list(ens), ex.text, ('    proof { %s }\n' % subst(cb['proof'])) if cb.get('proof') else '')
+        fns.append(f)
+        twins.append('fn %s_twin(%s)\n    requires\n%s    ensures false,\n{\n}\n' % (fn_name, ', '.join(params), _fmt_list(req)))
+        meta.append({'fn': fn_name, 'file': sc['file'], 'line': rxprep.line_of(src, ex.span[0]), 'span': list(ex.span), 'sha256': ex.sha256,
+                     'replacements': ex.replacements, 'loops': ex.loops})
+    prelude = open(os.path.join(VERIF, 'models', 'prelude.rs')).read()
+    text = prelude + '\nverus! {\n// ---- specification (contracts/%s) ----\n%s\n// ---- extracted from /repo ----\n%s\n} // verus!\nfn main() {}\n' % (
+        os.path.basename(sidecar_path), sc.get('spec', ''), '\n'.join(fns))
+    twin_text = prelude + '\nverus! {\n%s\n%s\n} // verus!\nfn main() {}\n' % (sc.get('spec', ''), '\n'.join(twins))
+    return {'op': op, 'text': text, 'twins': twin_text, 'facts': {}, 'skeleton_problems': sk_problems, 'outer_cells': [],
+            'extracted': meta, 'props': sc.get('props', []), 'known_fail': {}, 'fn_names': [m_['fn'] for m_ in meta],
+            'twin_names': [m_['fn'] + '_twin' for m_ in meta if not sc.get('no_twin_for') or m_['fn'] not in sc.get('no_twin_for')]}
+
+
 def gen_unit(sidecar_path: str, repo: str) -> dict:
     sc = load_sidecar(sidecar_path)
+    if sc.get('kind') == 'callbacks':
+        return gen_callbacks_unit(sc, sidecar_path, repo)
     if sc.get('kind') == 'method':
         return gen_method_unit(sc, sidecar_path, repo)
     if sc.get('kind') == 'source':
